@@ -135,7 +135,8 @@ def classify(data):
     """What the stdlib tokenizer / parser do on these bytes (bandit is not involved)."""
     out = {"tok": None, "parse": None}
     try:
-        for _ in tokenize.tokenize(io.BytesIO(data).readline):
+        # (newline-normalised bytes, as manager._parse_file hands them to tokenize since /repo 1cb0176)
+        for _ in tokenize.tokenize(io.BytesIO(data.replace(b"\r\n", b"\n").replace(b"\r", b"\n")).readline):
             pass
     except BaseException as e:  # noqa
         out["tok"] = exc_json(e)
@@ -561,7 +562,10 @@ def expected_outcomes(scn, obs, datas, cls):
                 elif kind in IO_FAULTS:
                     step, mk = IO_FAULTS[kind]
                     e = exc_json(mk(name))
-                    o[{"open": "open", "read": "read", "readline": "tok"}[step]] = e
+                    if step == "readline":
+                        pass          # since /repo 1cb0176 the comment pass tokenizes the bytes already read: a failing readline() of the file object can no longer strike
+                    else:
+                        o[{"open": "open", "read": "read"}[step]] = e
                 elif kind in VISIT_FAULTS:
                     where, mk = VISIT_FAULTS[kind]
                     o["visit"] = ["check" if where == "check" else "raise", exc_json(mk())]
